@@ -307,6 +307,33 @@ def run_random(run, seed, count, length):
     return traces, verdicts
 
 
+def run_boundary(run, only=None):
+    """directed histories whose moved tail is an exact multiple of the sizes a copy loop or a buffer works in
+    (512 .. 2**20 bytes), judged by the same trace spec (plan.boundary_history)"""
+    workdir = os.path.join(common.scratch(), "files-boundary")
+    os.makedirs(workdir, exist_ok=True)
+    traces = []
+    for k in (range(plan.BOUNDARY_CASES) if only is None else [only]):
+        world = session.World()
+        path = os.path.join(workdir, f"b{k}.tdf")
+        types, dec, sched = plan.boundary_history(k, world, path)
+        try:
+            tr = session.run_trace(path, world, types, dec, sched,
+                                   meta=dict(campaign="boundary", labels=[json.dumps(o, sort_keys=True) for o in sched],
+                                             conc_seed=k, schedule=sched, length=len(sched)))
+        finally:
+            if os.path.exists(path):
+                os.unlink(path)
+        traces.append(tr)
+    res, verdicts = validate(traces)
+    steps = sum(len(t["steps"]) for t in traces)
+    run.cov["traces_validated_against_impl"] += len(traces)
+    run.cov["evaluations"] += steps
+    run.cov["tlc_runs"].append(dict(name="TRACE boundary-size histories (moved tail = k * 512 .. 2**20 bytes)", traces=len(traces),
+                                    steps=steps, **res.summary()))
+    return traces, verdicts
+
+
 def minimise(tr, clause, budget=14):
     """Greedy delta-debugging of a rejected tour: drop chunks of calls (never the Setup) as long as
     TLC still reports `clause` for the re-executed history.  Returns the shortened label list."""
@@ -404,6 +431,12 @@ def check(prop, tier, seed, replay=None):
             types, dec, sched = plan.random_history(rng, world, path, len(rp["labels"]))
             tr = session.run_trace(path, world, types, dec, sched, meta=dict(campaign="random", labels=rp["labels"],
                                                                             conc_seed=rp["conc_seed"]))
+        elif rp["campaign"] == "boundary":
+            world = session.World()
+            path = os.path.join(common.scratch(), "replay.tdf")
+            types, dec, sched = plan.boundary_history(rp["conc_seed"], world, path)
+            tr = session.run_trace(path, world, types, dec, sched, meta=dict(campaign="boundary", labels=rp["labels"],
+                                                                            conc_seed=rp["conc_seed"]))
         else:
             init, adj, descs, _ = graph(rp["campaign"])
             tr = execute_tour(rp["campaign"], rp["labels"], rp["conc_seed"], common.scratch(), descs)
@@ -436,6 +469,11 @@ def check(prop, tier, seed, replay=None):
     traces, verdicts = run_random(run, seed, 40 if tier == "quick" else 1500, 45)
     for tr in traces[:1]:
         run.sample(dict(campaign="random", first_calls=tr["meta"]["schedule"][:6]))
+    report(run, traces, verdicts, prop)
+    total_distinct += len(traces)
+    traces, verdicts = run_boundary(run)
+    for tr in traces[:1]:
+        run.sample(dict(campaign="boundary", first_calls=tr["meta"]["schedule"][:6]))
     report(run, traces, verdicts, prop)
     total_distinct += len(traces)
     if prop == "C10":
